@@ -46,6 +46,15 @@ Parts (``task['part']``):
     constraint between two budget-exhausting forecasts, must not report a difference of the objective when the
     reference objectives of the two answers agree to 1e-7 (nor stay silent when they differ by 1e-3) -- under the
     natural labeling and under a labeling whose sorted order differs from the positions.
+ e  parameters obtained by an estimation: the model's own public entry point ``estimate_parameters`` (a real estimation,
+    with and without a weight expression, on a data set written out by the reference solver: estimation rows x all 27
+    draws; bounded unknown parameters, at most 20 iterations) mixed with the estimation_results setter and with
+    observations, as histories over {estimate on data set A / B, set parameters A / B, observe} that hold at least one
+    estimation (quick: depth 3, thorough: depth 4).  'Observe' = the pieces of row 0 (numeric utility = engine value of
+    the symbolic utility = closed form, derivative = engine gradient = closed form, optimal consumption), the forecast
+    of row 0 (reference optimum, KKT), ``validation(row 0)`` and the forecast of row 1 -- against the reference holding
+    the *current* values: the starting values overwritten by what the returned results report.  A failing observation
+    is repeated on a fresh model given the same values through the setter (key: stale state or not).
 
 The reference (class ``Ref``) never imports biogeme.
 """
@@ -66,13 +75,15 @@ TECHNIQUE = ('bounded exhaustive enumeration of MDCEV consumer problems (variant
              'labels x the operation that produced them) for the pairing observation <-> row <-> draws; an alphabet of '
              'requested (tolerance_dual, tolerance_budget) pairs x entry points; the brute-force routes (one draw, '
              'forecast(brute_force=True), forecast_comparison_one_draw, validate_forecast with captured log) held to the '
-             'invariants of any forecast')
+             'invariants of any forecast; exhaustive histories mixing the real estimation entry point '
+             '(estimate_parameters, with / without weights), the estimation_results setter and observations')
 RULE = ('one case per (problem, labeling) forecast, per (good, consumption, epsilon) / (good, dual, epsilon) piece '
         'comparison, per history step, per (data frame, observation, draw) of the data-frame sweep. A forecast case is non-trivial when the library returned a consumption vector '
         'that was compared with the reference optimum; corner solutions (some good at zero) are counted separately. '
         'distinct = distinct (part, configuration, parameter set, row, budget, draw, labeling | grid point | history | '
         'data frame, observation, draw) keys; part t: one case per (problem, tolerance pair, calling style / entry '
-        'point); part b: one case per (problem, labeling, route).')
+        'point); part b: one case per (problem, labeling, route); part e: one case per observation of a history '
+        '(configuration, labeling, weights, history prefix) -- non-trivial when the observation follows an estimation.')
 ASSUMPTIONS = [
     'the brute-force optimiser (scipy SLSQP) is only held to the invariants of any forecast (non-negative, budget '
     'exhausted to 1e-6 relative, outside good consumed, not better than the bisection forecast); how close it gets to '
@@ -87,6 +98,10 @@ ASSUMPTIONS = [
     'Mdcev.key_to_index (the library documents no other convention)',
     'parameters are changed only through the library API (the estimation_results setter, given an object with '
     'get_beta_values() as in the repository tests); prices / gamma / alpha / scale are data-independent expressions',
+    'after estimate_parameters the model holds the values reported by the results it returned (get_beta_values()) on top '
+    'of the previous ones; whether an estimation succeeds or converges is not judged (it is stopped after 20 iterations, '
+    'estimates are kept inside the domain by bounds on the parameters; raised estimations are counted); the validation '
+    'round trip at dual 10 is skipped (counted) when consumption + price * gamma cancels to less than 1e-6 relative',
     'observation i of a Database is the i-th row of its data frame by position (the order of the table), whatever '
     'labels the pandas index carries, and epsilons[i] are the draws of that observation (docstring of Mdcev.forecast)',
     'the engine (cythonbiogeme) is trusted for the value and gradient of the symbolic utility expression',
@@ -1770,12 +1785,12 @@ def _part_h(task, rec):
 # with at least one E, every O compared with the reference holding the *current* values: the starting values overwritten by
 # what the returned results report (``get_beta_values()``).
 E_BUDGET = 10.0
-E_MAX_ITER = 30
+E_MAX_ITER = 20
 
 
 def est_rows(alph):
     r0, r1 = alph['rows']
-    return [dict(x=x, z=z, unused=1.0) for x in (0.0, r0['x'], r1['x']) for z in (r1['z'], r0['z'])]
+    return [dict(x=x, z=z, unused=1.0) for x in (r0['x'], r1['x']) for z in (r1['z'], r0['z'])]
 
 
 def est_dataset(cfg, alph, which):
@@ -1805,6 +1820,23 @@ def in_domain(cfg, values):
         if not values['g_' + g] > 0 or not values['p_' + g] > 0 or not 0 < values['al_' + g] < 1:
             return False
     return values['scale'] > 0 and all(math.isfinite(v) for v in values.values())
+
+
+def validation_well_conditioned(ref):
+    """The library's validation inverts the marginal utility at the dual value 10 (epsilon 0.01) and evaluates the
+    derivative there.  For an inside good the consumption is (r - 1) * price * gamma (translated: r - gamma): when r is
+    tiny -- a good so unattractive that its marginal utility is far below 10 everywhere -- the sum consumption +
+    price * gamma cancels and the derivative computed from it is rounding noise (np.isclose in the validation then fails
+    although every piece is right).  Well conditioned: (consumption + price * gamma) / (price * gamma) >= 1e-6."""
+    for k in range(3):
+        g = ref.gamma[k]
+        if g is None:
+            continue
+        x = ref.inv(k, 10.0, 0.01)
+        scale = g if ref.variant in ('translated', 'nonmono') else ref.price[k] * g
+        if not math.isfinite(x) or (x + scale) / scale < 1e-6:
+            return False
+    return True
 
 
 def observe_battery(model, cfg, lab, one, values, alph):
@@ -1861,6 +1893,9 @@ def observe_battery(model, cfg, lab, one, values, alph):
             if max(ref.dual_floor(k, 0.01) for k in range(3)) >= 10 - 1e-9:
                 obs.append('validation-skipped')
                 continue
+            if not validation_well_conditioned(ref):
+                obs.append('validation-skipped-ill-conditioned')
+                continue
             try:
                 msgs = model.validation(one_row=one[ri])
             except Exception as ex:  # noqa: BLE001
@@ -1893,12 +1928,12 @@ def run_est_history(cfg, lab, hist, alph, weights, rec=None, one=None, name=None
     info = dict(estimations=0, moved=0)
     for i, op in enumerate(hist):
         kind = op[0]
-        h = tuple((o[0],) + tuple(o[1:]) if not (len(o) > 1 and isinstance(o[1], dict)) else ('P',) for o in hist[:i + 1])
+        h = tuple(tuple('values' if isinstance(v, dict) else v for v in o) for o in hist[:i + 1])
         if kind == 'S' or kind == 'P':
             new = dict(alph['psets'][op[1]]) if kind == 'S' else dict(op[1])
             model.estimation_results = _Results(new)
             values.update(new)
-            source = 'setter' if source == 'initial-values' or kind == 'P' else 'setter-after-estimate_parameters'
+            source = 'setter-after-estimate_parameters' if info['estimations'] else 'setter'
             if rec is not None:
                 rec.transition()
             continue
@@ -1937,6 +1972,8 @@ def run_est_history(cfg, lab, hist, alph, weights, rec=None, one=None, name=None
         # 'O'
         bad, obs = observe_battery(model, cfg, lab, one, values, alph)
         if rec is not None:
+            if 'validation-skipped-ill-conditioned' in obs:
+                rec.count('skipped_ill_conditioned:validation-round-trip-at-dual-10')
             rec.case(('e', name, tuple(labels), lab['order'], weights, h), (h, _round(obs)),
                      outcome=f"{cfg['variant']}|e|values-from:{source}|{'bad' if bad else 'ok'}")
             rec.state((name, 'e', weights, h_text(hist[:i + 1])))
@@ -1965,6 +2002,7 @@ def est_violation(cfg, lab, hist, out, alph, weights):
 
 E_OPS_QUICK = (['E', 'A'], ['S', 'B'], ['O'])
 E_OPS_THOROUGH = (['E', 'A'], ['E', 'B'], ['S', 'A'], ['S', 'B'], ['O'])
+E_OPS_DEEP = (['E', 'A'], ['E', 'B'], ['S', 'A'], ['O'])
 
 
 def est_histories(ops, depth, first=None):
@@ -1992,7 +2030,7 @@ def _part_e(task, rec):
         out = run_est_history(cfg, lab, hist, alph, weights, rec, one, name, data)
         rec.count('estimation_histories')
         rec.count('estimation_histories:' + out['status'])
-        if task.get('sample') and hist is task['histories'][0]:
+        if task.get('sample') and hist == task['histories'][0]:
             rec.sample(dict(part='e', cfg=cfg, history=hist, result={k: v for k, v in out.items() if k != 'values'}))
         if out['status'] != 'bad':
             continue
@@ -2138,6 +2176,29 @@ def tasks(tier, seed):
                 for c0 in range(0, len(frs), 24):
                     t.append(dict(part='d', cfg=cfg, pset=ps, budget=b, lab=labs[li], frames=[frs[0]] + frs[max(c0, 1):c0 + 24], ndraws=9,
                                   seed=seed, sample=ci == 0 and c0 == 0 and ps == 'D' and li == 7))
+    # parameters obtained by a real estimation (estimate_parameters), mixed with the setter: histories
+    e_cfgs = [cfg for cfg in cfgs if cfg['og'] in (None, 1)]
+    if tier == 'quick':
+        # the variant's full configuration and the bare one, with / without an outside good; weights on every other one
+        ei = 0
+        for cfg in e_cfgs:
+            if (cfg['prices'], cfg['scale']) not in ((HAS_PRICES[cfg['variant']], True), (False, False)):
+                continue
+            ops = [[o[0], {'A': 'B', 'B': 'A'}[o[1]]] if (ei % 2 and len(o) > 1) else list(o) for o in E_OPS_QUICK]
+            t.append(dict(part='e', cfg=cfg, lab=labs[(9, 0)[ei % 2]], weights=bool((ei // 2) % 2), histories=est_histories(ops, 3),
+                          seed=seed, sample=ei == 0))
+            ei += 1
+    else:
+        for ci, cfg in enumerate(e_cfgs):
+            full = cfg['prices'] == HAS_PRICES[cfg['variant']] and cfg['scale']
+            # depth 4 over {EA, EB, SA, O} for the variant's full configuration, depth 3 over {EA, EB, SA, SB, O} for all
+            for first in E_OPS_THOROUGH:
+                hs = est_histories(E_OPS_THOROUGH, 3, first=first)
+                if full:
+                    hs += [h for h in est_histories(E_OPS_DEEP, 4, first=first) if len(h) == 4]
+                if hs:
+                    t.append(dict(part='e', cfg=cfg, lab=labs[(9, 0, 8)[ci % 3]], weights=bool(ci % 2), histories=hs, seed=seed,
+                                  sample=ci == 0 and first[0] == 'E' and first[1] == 'A'))
     h_lab = [labs[0], labs[9]] if tier == 'thorough' else [labs[9]]
     for cfg in cfgs:
         if cfg['prices'] != HAS_PRICES[cfg['variant']] or not cfg['scale']:
@@ -2167,6 +2228,8 @@ def run_task(task):
         _part_t(task, rec)
     elif part == 'b':
         _part_b(task, rec)
+    elif part == 'e':
+        _part_e(task, rec)
     return rec.result()
 
 
@@ -2204,6 +2267,12 @@ def replay(case):
     elif part == 'b':
         _part_b(dict(part='b', cfg=case['cfg'], pset=case['pset'], budget=case['budget'], ndraws=case['ndraws'], labs=case['labs'],
                      routes=case.get('routes', 'all'), seed=seed), rec)
+    elif part == 'e':
+        alph = alphabet(seed)
+        out = run_est_history(case['cfg'], case['lab'], case['history'], alph, case['weights'])
+        if out['status'] == 'bad':
+            key, what = est_violation(case['cfg'], case['lab'], case['history'], out, alph, case['weights'])
+            rec.violation(key, what, case, expected=out['expected'], observed=out['observed'])
     elif part == 'h':
         alph = alphabet(seed)
         hist = [tuple(o) for o in case['history']]
